@@ -318,3 +318,61 @@ func VH_C10_ConnPool() {
 	vhGuardCheck(false)
 	vhReach("c10-connpool")
 }
+
+// C10-H8 (lock hand-off schedule): one goroutine reads messages from a Batch while another asks for its offsets, then
+// closes it and seeks on the Conn; the third keeps reading the connection's offset. Declared guards plus the lockset
+// analysis over every field of the Batch and of the Conn, with the goroutines really interleaved at every Unlock.
+func VH_C10_ConcurrentBatch() {
+	vhConcreteClock(true)
+	vhHandoff(true)
+	f1 := vhApiVersionsFrame(1, []vhApiRange{{int16(fetch), 0, 10}, {int16(listOffsets), 0, 1}})
+	set := append(vhEncMessage(0, 1, 0, 1000, nil, []byte("a")), vhEncMessage(1, 1, 0, 1000, nil, []byte("b"))...)
+	set = append(set, vhEncMessage(2, 1, 0, 1000, nil, []byte("c"))...)
+	var script []byte
+	script = append(script, f1...)
+	script = append(script, vhFetchResponse(2, 10, 0, "t", 0, 0, 10, set)...)
+	script = append(script, vhListOffsetsFrame(3, "t", 0, 0, -1, 0)...)
+	script = append(script, vhListOffsetsFrame(4, "t", 0, 0, -1, 9)...)
+	fc := &vhFakeConn{data: script}
+	c := NewConnWith(fc, ConnConfig{Topic: "t", Partition: 0, ClientID: "vh"})
+	c.Seek(0, SeekAbsolute|SeekDontCheck)
+	b := c.ReadBatchWith(ReadBatchConfig{MinBytes: 1, MaxBytes: 1000})
+	vhGuardConn(c)
+	vhGuarded(b, "offset", &b.mutex)
+	vhGuarded(b, "err", &b.mutex)
+	vhGuarded(b, "conn", &b.mutex)
+	vhGuarded(b, "lock", &b.mutex)
+	vhGuarded(b, "msgs", &b.mutex)
+	vhWatch(c)
+	vhWatch(b)
+	vhGuardCheck(true)
+	fin := 0
+	go func() {
+		for i := 0; i < 4; i++ {
+			if _, err := b.ReadMessage(); err != nil {
+				break
+			}
+		}
+		fin++
+	}()
+	go func() {
+		b.Offset()
+		b.HighWaterMark()
+		b.Err()
+		b.Close()
+		c.Seek(1, SeekCurrent)
+		fin++
+	}()
+	go func() {
+		c.Offset()
+		c.Offset()
+		fin++
+	}()
+	for i := 0; i < 6; i++ {
+		vhRunAll()
+	}
+	vhGuardCheck(false)
+	vhAssert(fin == 3, "every-goroutine-returns")
+	c.Close()
+	vhReach("c10-concurrent-batch")
+}
